@@ -197,6 +197,17 @@ def _combine_roles(f, rend):
     return roles
 
 
+def _role_of(text, roles):
+    """low / high half of a 32-bit value: by the local that holds it or by the expression itself"""
+    if text in roles:
+        return roles[text]
+    if re.match(r'^\(& .* 65535\)$', text) or re.match(r'^\(& 65535 .*\)$', text):
+        return 'low'
+    if re.match(r'^\(>> .* 16\)$', text):
+        return 'high'
+    return None
+
+
 def _split_roles(f, rend):
     roles = {}
     for v in walk(f['body']):
@@ -248,7 +259,7 @@ def p3_pairs(ctx):
         if len(ou) == 2:
             sr = _split_roles(fu, ru)
             cr = _combine_roles(fo, ro)
-            pw = [sr.get(ru.r(o[1])) for o in ou]
+            pw = [_role_of(ru.r(o[1]), sr) for o in ou]
             pr = [cr.get('l:' + o[1]) for o in oo]
             if None in pw or None in pr or pw != list(reversed(pr)):
                 ctx.report(R, fo, fo['body'], 'push/pop(%s) order' % ty, 'push order %s is not the reverse of pop order %s' % (pw, pr))
@@ -292,7 +303,7 @@ def p3_pairs(ctx):
         ru, ro = Renderer(fu, inline_locals=False), Renderer(po[0], inline_locals=False)
         sr = _split_roles(fu, ru)
         cr = _combine_roles(po[0], ro)
-        pw = [sr.get(ru.r(o[1])) for o in ou]
+        pw = [_role_of(ru.r(o[1]), sr) for o in ou]
         pr = [cr.get('l:' + o[1]) for o in oo]
         if len(pw) != 2 or len(pr) != 2 or None in pw or None in pr or pw != list(reversed(pr)):
             ctx.report(R, po[0], po[0]['body'], 'pusha/popa order', 'push order %s is not the reverse of pop order %s' % (pw, pr))
